@@ -3,6 +3,7 @@
 // TLA+ trace specifications under /verif/spec/trace validate.
 mod api;
 mod util;
+mod apitrace;
 mod fcases;
 mod refmath;
 
@@ -15,6 +16,7 @@ fn main() {
     let args = Args::parse(&a[2..]);
     match a[1].as_str() {
         "keygen" | "sign" | "verify" | "replayf" => fcases::run(a[1].as_str(), &args),
+        "api" => apitrace::run(&args),
         other => { eprintln!("unknown subcommand {}", other); std::process::exit(2); }
     }
 }
